@@ -75,7 +75,7 @@ def rule_typestate(ctx: Ctx) -> None:
     ctx.check(ok, "C05.1", "an order completes exactly when filled >= amount (3 orderings)", af, st[0].stmt if st else af.node, str(tbl),
               f"completion test truth table {tbl}: an order stays open when fully filled, or closes early")
     acc = [s for s in A.stores(af) if isinstance(s.node, ast.AugAssign) and A.dotted(s.target) == "self._balance_updates"]
-    okacc = bool(acc) and bool(st) and acc[0].stmt.lineno < st[0].stmt.parent.lineno  # type: ignore[attr-defined]
+    okacc = bool(acc) and bool(st) and A.seq(acc[0].stmt) < A.seq(st[0].stmt.parent)  # type: ignore[attr-defined]
     ctx.check(okacc, "C05.1", "the fill is accumulated before the completion test", af, acc[0].stmt if acc else af.node, "+= then test",
               "completion is tested before the fill is added")
     allowed = {
@@ -270,14 +270,14 @@ def rule_listings(ctx: Ctx) -> None:
     for a in A.ancestors(apps[0]):
         if a is lp:
             break
-        if isinstance(a, ast.If) and a.lineno > A.stmt_of(ys[0]).lineno:
+        if isinstance(a, ast.If) and A.seq(a) > A.seq(A.stmt_of(ys[0])):
             t_ = a.test
             post_terms.extend(ast.unparse(p_) for p_ in (t_.values if isinstance(t_, ast.BoolOp) and isinstance(t_.op, ast.And) else [t_]))
-    ctx.check(A.stmt_of(apps[0]).lineno > A.stmt_of(ys[0]).lineno and f"{item}.is_open" in post_terms, "C05.5",
+    ctx.check(A.seq(A.stmt_of(apps[0])) > A.seq(A.stmt_of(ys[0])) and f"{item}.is_open" in post_terms, "C05.5",
               "an item is kept iff it is still open after the consumer handled it", go, A.stmt_of(apps[0]), "append after the yield, re-testing is_open",
               "the re-index keeps items without re-testing is_open after the yield")
     swap = [s for s in A.stores(go) if A.dotted(s.target) == "self._open_items"]
-    oks = bool(swap) and swap[0].stmt.lineno > lp.end_lineno and not A.is_within(swap[0].stmt, lp) \
+    oks = bool(swap) and A.seq(swap[0].stmt) > A.seq(lp) and not A.is_within(swap[0].stmt, lp) \
         and any(isinstance(a, ast.If) and ast.unparse(a.test) == "new_open_items is not None" for a in A.ancestors(swap[0].stmt))
     ctx.check(oks, "C05.5", "the rebuilt list replaces the old one only after the whole pass", go, swap[0].stmt if swap else go.node,
               "swap after the loop", "the open list is swapped inside the loop / unconditionally")
